@@ -111,3 +111,70 @@ Theorem C08_lf_exact_wins : forall c l s,
   possible_long_flag_subcommand c l = Some (c_name s).
 Proof. exact lf_exact_wins. Qed.
 Print Assumptions C08_lf_exact_wins.
+
+(** step-level spelling equalities, for every parser state *)
+Theorem C08_resolve_pending_clears : forall c st st1, resolve_pending c st = ROk st1 -> mt_pending (mt st1) = None.
+Proof. exact resolve_pending_clears. Qed.
+Print Assumptions C08_resolve_pending_clears.
+
+Theorem C08_parse_loop_value_step : forall c tok rest pos vaf st i,
+  is_set s_sub_precedence c = false ->
+  is_escape tok = false -> to_long tok = None -> to_short tok = None ->
+  parse_loop c (tok :: rest) (mkL (PSOpt i) pos vaf false) st =
+  (do a <- expect 290 (find_arg c i);
+   if check_terminator a tok then parse_loop c rest (mkL PSValuesDone pos vaf false) st
+   else do y <- take_value c i tok st;
+        parse_loop c rest (mkL (if snd y then PSOpt i else PSValuesDone) pos vaf false) (fst y)).
+Proof. exact parse_loop_value_step. Qed.
+Print Assumptions C08_parse_loop_value_step.
+
+Theorem C08_attached_vs_separate : forall c idn a r v has_eq st,
+  find_arg c (a_id a) = Some a -> a_req_eq a = false -> a_num a = Some r ->
+  (do x <- parse_opt_value c idn (Some v) a has_eq st; ROk (fst x)) =
+  (do x <- parse_opt_value c idn None a false st;
+   do y <- take_value c (a_id a) v (fst x);
+   resolve_pending c (fst y))
+  /\ (forall x y, parse_opt_value c idn None a false st = ROk x -> take_value c (a_id a) v (fst x) = ROk y ->
+      snd x = PROpt (a_id a) /\ snd y = r_accepts_more r 1).
+Proof. exact attached_vs_separate. Qed.
+Print Assumptions C08_attached_vs_separate.
+
+Theorem C08_short_eq_strip : forall c f1 f2 r1 r2 ch a v ret vaf st,
+  sf_next r1 = Some (inl ch, 61 :: v) -> sf_next r2 = Some (inl ch, v) ->
+  v <> [] -> hd 0 v <> 61 ->
+  get_short c ch = Some a -> a_takes_value a = true -> a_req_eq a = false ->
+  short_loop c (S f1) r1 ret vaf st = short_loop c (S f2) r2 ret vaf st.
+Proof. exact short_eq_strip. Qed.
+Print Assumptions C08_short_eq_strip.
+
+Theorem C08_short_attached_vs_separate : forall c f f' ratt rsep ch a r b t ret vaf st,
+  sf_next ratt = Some (inl ch, b :: t) -> b <> 61 -> sf_next rsep = Some (inl ch, []) ->
+  get_short c ch = Some a -> a_takes_value a = true -> a_req_eq a = false ->
+  find_arg c (a_id a) = Some a -> a_num a = Some r ->
+  (do x <- short_loop c (S f) ratt ret vaf st; ROk (fst (fst x))) =
+  (do x <- short_loop c (S f') rsep ret vaf st;
+   do y <- take_value c (a_id a) (b :: t) (fst (fst x));
+   resolve_pending c (fst y)).
+Proof. exact short_attached_vs_separate. Qed.
+Print Assumptions C08_short_attached_vs_separate.
+
+Theorem C08_cluster_split : forall c r r1 r2 ch a ret vaf st,
+  sf_next r = Some (inl ch, r2) -> sf_next r1 = Some (inl ch, []) -> r2 <> [] ->
+  get_short c ch = Some a -> a_takes_value a = false ->
+  short_loop c (S (length r)) r ret vaf st =
+  (do x <- short_loop c (S (length r1)) r1 ret vaf st;
+   short_loop c (S (length r2)) r2 PRNoArg (snd x) (fst (fst x))).
+Proof. exact cluster_split. Qed.
+Print Assumptions C08_cluster_split.
+
+(** refutations on the faithful model (replayed on the implementation: a known finding and an observation) *)
+Theorem C08_flag_sub_exact_shadowed_refuted : exists c p n a,
+  assert_app c = true /\ find_long_subcmd c p = Some n /\ get_long c p = None /\ lookup_long c p = Some a.
+Proof. exact flag_sub_exact_shadowed_refuted. Qed.
+Print Assumptions C08_flag_sub_exact_shadowed_refuted.
+
+Theorem C08_lf_exact_needs_long_flag_refuted : exists c l s,
+  List.find (fun s => long_flag_aliases_to s l) (c_subs c) = Some s /\
+  possible_long_flag_subcommand c l <> Some (c_name s).
+Proof. exact lf_exact_needs_long_flag_refuted. Qed.
+Print Assumptions C08_lf_exact_needs_long_flag_refuted.
